@@ -321,6 +321,9 @@ def dgram_faults(ctx):
           u % '03', 'sround 2', 'ssock 1 d 5.6.7.8|99 aa', 'cdeliver']),
         ('udp-recv-error-twice', 'udp', cfg_u,
          [u % '01', 'sround 2', 'ssock 0 e 104', 'ssock 0 e 111', u % '02', 'sround 1', 'ssock 0 d 5.6.7.8|99 aa', 'cdeliver']),
+        ('udp-silence-then-data', 'udp', cfg_u,
+         [u % '01', 'sround 2', 'ssock 0 d 5.6.7.8|99 aa', 'cdeliver', 'tick %d' % (T + 15 * E.TICKS), 'sround 0',
+          u % '02', 'sround 1', 'ssock 0 d 5.6.7.8|99 bb', 'cdeliver', 'tick %d' % (2 * T), 'sround 0', u % '03', 'sround 2']),
         ('dns-recv-error-then-late-reply', 'dns', cfg_d,
          [q % '01', 'sround 1', 'ssock 0 e 111', 'sround 0', 'tick %d' % (T + 1), q % '02', 'sround 1', 'cdeliver']),
     ]
@@ -577,7 +580,7 @@ def run(ctx):
     # every errno of the code's own handled set, at receive and at send, at either endpoint: the flow ends, both
     # processes live, the state at rest is quiet
     import sshuttle.ssnet as _ssnet
-    for e in sorted(int(x) for x in _ssnet.NET_ERRS):
+    for e in sorted(set(int(x) for x in _ssnet.NET_ERRS) | set(tg.OTHER_SOCK_ERRS)):
         for which in ('app', 'dst'):
             for fault in ('recv', 'send'):
                 ins, outs = tg.failure_tears_down(ctx, rng, 'C08', which, fault, err='x%d' % e)
